@@ -1042,7 +1042,7 @@ def rule_flags_only_comments(cm, rep, rid):
         if f.name in ('_set_debug_options', 'main'):
             continue
         for s in own_nodes_ordered(f.node):
-            if isinstance(s, ast.If) and re.search(r'\bdebug_\w+', norm(s.test)):
+            if isinstance(s, ast.If) and re.search(r'debug_\w+', norm(s.test)):
                 n += 1
                 key = '%s:if %s' % (f.qname, norm(s.test))
                 if f.name == 'generate' and all(isinstance(b, ast.Assign) for b in s.body + s.orelse):
@@ -1076,7 +1076,7 @@ def rule_flags_only_comments(cm, rep, rid):
                     rep.violation(rid, key, 'a debug flag controls %s, which is not a debug write: the option changes the generated code' % norm(bad)[:60], f.loc(bad))
                 else:
                     rep.ok(rid, key, 'only debug output depends on the flag', f.loc(s))
-    rep.minimum('debug-flag tests', n, 3)
+    rep.minimum('debug-flag tests', n, 2)
     ts = cm.renderer
     prog = Node('YPCodeProgram', functions=[Node('YPCodeFunction', name='p', args=[], body=[Node('YPCodeYieldFalse')])])
     outs = []
